@@ -35,7 +35,9 @@ Fixpoint esc_bytes (sk : skipmode) (l : list N) : list ascii :=
   | [] => []
   | b :: r =>
     match sk with
-    | Copy (S k) => ch_of b :: esc_bytes (Copy k) r
+    | Copy (S k) =>
+      (* continuation bytes of a sequence decode_rune accepted; they are >= 128 *)
+      if (b <? 128)%N then esc_ascii b ++ esc_bytes (Copy 0) r else ch_of b :: esc_bytes (Copy k) r
     | Drop (S k) => esc_bytes (Drop k) r
     | _ =>
       if (b <? 128)%N then esc_ascii b ++ esc_bytes (Copy 0) r
@@ -112,7 +114,7 @@ Fixpoint parse_str (fuel : nat) (l : list ascii) (acc : list ascii) : option (st
     | [] => None
     | ch :: r =>
       let n := N_of ch in
-      if (n =? 34)%N then Some (string_of_list_ascii (rev acc), r)
+      if (n =? 34)%N then Some (string_of_list_ascii (rev' acc), r)
       else if (n <? 32)%N then None
       else if (n =? 92)%N then
         match r with
@@ -208,32 +210,57 @@ Definition parse_num (l : list ascii) : option (list ascii * list ascii) :=
 
 Inductive after := AClose | AMore.
 
+Definition lit_true : list ascii := ["t"; "r"; "u"; "e"].
+Definition lit_false : list ascii := ["f"; "a"; "l"; "s"; "e"].
+Definition lit_null : list ascii := ["n"; "u"; "l"; "l"].
+
+Fixpoint strip_prefix (p l : list ascii) : option (list ascii) :=
+  match p, l with
+  | [], _ => Some l
+  | a :: p', b :: l' => if Ascii.eqb a b then strip_prefix p' l' else None
+  | _, [] => None
+  end.
+
+Definition parse_scalar (l : list ascii) : option (json * list ascii) :=
+  match strip_prefix lit_true l with
+  | Some r => Some (JBool true, r)
+  | None =>
+    match strip_prefix lit_false l with
+    | Some r => Some (JBool false, r)
+    | None =>
+      match strip_prefix lit_null l with
+      | Some r => Some (JNull, r)
+      | None => match parse_num l with
+                | Some (lit, r) => Some (JNum (string_of_list_ascii lit), r)
+                | None => None
+                end
+      end
+    end
+  end.
+
 Fixpoint parse_value (fuel : nat) (l : list ascii) : option (json * list ascii) :=
   match fuel with
   | O => None
   | S f =>
     match skip_ws l with
-    | "{" :: r =>
-      match skip_ws r with
-      | "}" :: r' => Some (JObj [], r')
-      | r1 => parse_members f r1 []
-      end
-    | "[" :: r =>
-      match skip_ws r with
-      | "]" :: r' => Some (JArr [], r')
-      | r1 => parse_elems f r1 []
-      end
-    | """" :: r => match parse_str (S (List.length r)) r [] with
-                   | Some (s, r') => Some (JStr s, r')
-                   | None => None
-                   end
-    | "t" :: "r" :: "u" :: "e" :: r => Some (JBool true, r)
-    | "f" :: "a" :: "l" :: "s" :: "e" :: r => Some (JBool false, r)
-    | "n" :: "u" :: "l" :: "l" :: r => Some (JNull, r)
-    | l' => match parse_num l' with
-            | Some (lit, r) => Some (JNum (string_of_list_ascii lit), r)
-            | None => None
-            end
+    | [] => None
+    | ch :: r =>
+      if Ascii.eqb ch "{" then
+        match skip_ws r with
+        | "}" :: r' => Some (JObj [], r')
+        | r1 => parse_members f r1 []
+        end
+      else if Ascii.eqb ch "[" then
+        match skip_ws r with
+        | "]" :: r' => Some (JArr [], r')
+        | r1 => parse_elems f r1 []
+        end
+      else if Ascii.eqb ch """" then
+        match parse_str (S (List.length r)) r [] with
+        | Some (s, r') => Some (JStr s, r')
+        | None => None
+        end
+      else parse_scalar (ch :: r)
     end
   end
 (* members of an object, positioned at the first non-space byte of a key; acc is the map built so far *)
@@ -278,11 +305,24 @@ with parse_elems (fuel : nat) (l : list ascii) (acc : list json) : option (json 
       | Some (v, r1) =>
         match skip_ws r1 with
         | "," :: r2 => parse_elems f (skip_ws r2) (v :: acc)
-        | "]" :: r2 => Some (JArr (rev (v :: acc)), r2)
+        | "]" :: r2 => Some (JArr (rev' (v :: acc)), r2)
         | _ => None
         end
       end
     end
+  end.
+
+(* json.Marshal refuses a json.Number that is not a valid number literal; MarshalOrdered then fails
+   and the line is skipped. Literals produced by the parser are always valid. *)
+Definition valid_number (lit : string) : bool :=
+  match parse_num (list_ascii_of_string lit) with Some (_, []) => true | _ => false end.
+
+Fixpoint printable (t : json) : bool :=
+  match t with
+  | JNum lit => valid_number lit
+  | JArr l => forallb printable l
+  | JObj l => forallb (fun kv => printable (snd kv)) l
+  | _ => true
   end.
 
 (* UnmarshalOrdered: the first JSON value of the line must be an object; what follows it is ignored *)
